@@ -1634,6 +1634,9 @@ func (m *Dot11InformationElement) DecodeFromBytes(data []byte, df gopacket.Decod
 	}
 	m.ID = Dot11InformationElementID(data[0])
 	m.Length = data[1]
+	// only vendor and extension elements carry these: not those of an element decoded earlier into m
+	m.OUI = nil
+	m.ExtensionID = 0
 	offset := int(2)
 
 	if len(data) < offset+int(m.Length) {
